@@ -15,7 +15,14 @@
    Silent (unhookable or abstract) steps: the PLAIN reads of dbpd_atomic_flags (invoke paths,
    testcancel) and dbpd_thread, the plain write of dbpd_thread, the queue handing the item to a
    thread, the abstract group decisions inside dispatch_group_wait / dispatch_group_notify, the
-   kernel timeout, pure returns.  TLC places them anywhere between the neighbouring logged events. *)
+   kernel timeout, pure returns, the timer of a dispatch_after / timer-source submission firing, the source
+   giving back its copy of the block object.  TLC places them anywhere between the neighbouring logged events.
+
+   Real time enters in one place only: the driver reads the clock of the timer (_dispatch_uptime) right AFTER
+   logging a CancelRet / WaitRet / NotifyRan record; if no timer submission of the execution had reached its
+   deadline then (with a margin), the record carries nd = 1 ("not due"), and no "after" / "handler" invocation can
+   have been handed to the queue at that record (a timer does not fire before its deadline: C11, assumed here).
+   This is what pins "cancelled before it starts" for the timer-started paths. *)
 EXTENDS Block, Json, IOUtils, TLCExt
 
 CONSTANT Level   \* "word": every record is matched; "api": only the API-visible events are matched, the
@@ -49,7 +56,7 @@ TReset ==
     /\ gcnt' = 1 /\ ggen' = 0
     /\ nst' = [n \in NIds |-> "none"] /\ nsub' = [n \in NIds |-> 0]
     /\ gate' = IF Rec.gate THEN "queued" ELSE "none"
-    /\ ug' = 0
+    /\ ug' = 0 /\ bref' = 0
     /\ pc' = [t \in Threads |-> "idle"] /\ lv' = [t \in Threads |-> L0]
     /\ inv' = [k \in 1..MaxInv |-> I0]
     /\ nsubm' = 0 /\ ncancel' = 0 /\ ntest' = 0 /\ nwait' = 0 /\ nperf' = 0
@@ -70,17 +77,18 @@ TSkip == Ev("GateOpen") /\ Consume /\ Same
 
 (* ------------------------------- API events ------------------------------- *)
 Idle(t) == pc[t] = "idle"
+NotDue(nd) == nd = 1 => \A k \in 1..MaxInv : inv[k].api \in TimerApis => inv[k].pc \in {"none", "armed"}
 TSubmitCall == Ev("SubmitCall") /\ Consume /\ CallSubmit(Rec.t, Rec.api)
 TSubmitRet  == Ev("SubmitRet") /\ Consume /\ SubmitRet(Rec.t)
 TCancelCall == Ev("CancelCall") /\ Consume /\ CallCancel(Rec.t)
-TCancelRet  == Ev("CancelRet") /\ Consume /\ Idle(Rec.t) /\ Same
+TCancelRet  == Ev("CancelRet") /\ Consume /\ Idle(Rec.t) /\ NotDue(Rec.nd) /\ Same
 TTestCall   == Ev("TestCall") /\ Consume /\ CallTest(Rec.t)
 TTestRet    == Ev("TestRet") /\ Consume /\ Idle(Rec.t) /\ lastTest[Rec.t] = Rec.r /\ Same
 TWaitCall   == Ev("WaitCall") /\ Consume /\ CallWait(Rec.t, Rec.kind)
-TWaitRet    == Ev("WaitRet") /\ Consume /\ Idle(Rec.t) /\ wres.rc = Rec.r /\ Same
+TWaitRet    == Ev("WaitRet") /\ Consume /\ Idle(Rec.t) /\ wres.rc = Rec.r /\ NotDue(Rec.nd) /\ Same
 TNotifyCall == Ev("NotifyCall") /\ Consume /\ CallNotify(Rec.t, Rec.n)
 TNotifyRet  == Ev("NotifyRet") /\ Consume /\ Idle(Rec.t) /\ Same
-TNotifyRan  == Ev("NotifyRan") /\ Consume /\ NotifyRun(Rec.n)
+TNotifyRan  == Ev("NotifyRan") /\ Consume /\ NotDue(Rec.nd) /\ NotifyRun(Rec.n)
 TBodyStart  == Ev("BodyStart") /\ Consume /\ \E k \in 1..MaxInv : I_BodyStart(k, Rec.t)
 TBodyEnd    == Ev("BodyEnd") /\ Consume /\ \E k \in 1..MaxInv : I_BodyEnd(k, Rec.t)
 TGateStart  == Ev("GateStart") /\ Consume /\ GateStart
@@ -135,7 +143,8 @@ TSilent == /\ l <= Len(Tr) /\ UNCHANGED l
            /\ \/ \E t \in Threads : \/ T_Read(t) \/ W_ReadThr(t) \/ W_GCheck(t) \/ W_Wake(t) \/ W_Timeout(t)
                                     \/ N_Reg(t) \/ N_Ret(t) \/ S_Push(t) \/ P_Read(t)
                                     \/ C_PlainRead(t) \/ C_PlainWrite(t)
-              \/ \E k \in 1..MaxInv : I_Start(k) \/ I_Read(k) \/ I_SetThr(k) \/ I_WakeDone(k) \/ I_UgLeave(k)
+              \/ \E k \in 1..MaxInv : \/ I_Fire(k) \/ I_Start(k) \/ I_Read(k) \/ I_SetThr(k) \/ I_WakeDone(k)
+                                       \/ I_UgLeave(k) \/ I_SrcRel(k)
 
 TNext == \/ TReset \/ TEnd \/ TSkip
          \/ TSubmitCall \/ TSubmitRet \/ TCancelCall \/ TCancelRet \/ TTestCall \/ TTestRet
